@@ -28,6 +28,14 @@ class AdvError(Exception):
     """Raised by a scripted adversary."""
 
 
+class Runaway(AdvError):
+    """Raised by a scripted adversary that was called far beyond any budget (a loop that lost its bound must not
+    hang the check; the oracle reports the call count)."""
+
+
+CAP = 64          # adversary calls of one kind per loop run; the largest budget generated is 11
+
+
 def pick(script: str, i: int, d: str) -> str:
     return script[min(i, len(script) - 1)] if script else d
 
@@ -279,6 +287,8 @@ class C18(Prop):
 
         def gen(prompt, error_context=None):
             i = len(calls)
+            if i >= CAP:
+                raise Runaway("generator")
             rec = {"p": prompt == "P<7>", "ctx": error_context, "out": "x", "fold": "-", "raw": None, "f": None}
             calls.append(rec)
             raw = prop._gen_raw(pick(gs, i, "g"), i, error_context)
@@ -372,6 +382,8 @@ class C18(Prop):
                 self.spawns = []
 
             def factory(self, name, hints):
+                if len(self.spawns) >= CAP:
+                    raise Runaway("factory")
                 rec = {"name": name, "hints": list(hints), "worker": "x", "steps": [], "raised": False, "summ": "none",
                        "task_ok": True}
                 self.spawns.append(rec)
@@ -391,6 +403,8 @@ class C18(Prop):
 
             def step(self, w, task):
                 rec = self.spawns[-1]
+                if len(rec["steps"]) >= CAP:
+                    raise Runaway("step")
                 script = ss[min(self.spawn - 1, len(ss) - 1)] if ss else ""
                 item = pick(script, self.stepi, "u")
                 g = self.g
@@ -477,6 +491,8 @@ class C18(Prop):
             def complete(self, prompt, config=None):
                 i = cnt["c"]
                 cnt["c"] += 1
+                if i >= CAP:
+                    raise Runaway("complete")
                 if pick(cs, i, "r") == "x":
                     evs.append(("C", view(prompt), "x"))
                     raise AdvError("complete")
@@ -489,6 +505,8 @@ class C18(Prop):
             def complete_with_tools(self, prompt, tools=None, config=None):
                 i = cnt["p"]
                 cnt["p"] += 1
+                if i >= CAP:
+                    raise Runaway("provider")
                 item = pick(ps, i, "1")
                 if item == "x":
                     evs.append(("T", view(prompt), "x"))
